@@ -94,3 +94,82 @@ func TestF6DryRunChangesNothing(t *testing.T) {
 		t.Errorf("dry run changed the destination: before=%v after=%v", before, after)
 	}
 }
+
+func pull(t *testing.T, src, dst string, flags ...string) {
+	t.Helper()
+	srv := rsynctest.New(t, rsynctest.InteropModule(src))
+	args := append([]string{"gokr-rsync", "-a"}, flags...)
+	args = append(args, "rsync://localhost:"+srv.Port+"/interop/", dst)
+	rsynctest.Run(t, args...)
+}
+
+// F2: excluding a file must not drop its later siblings.
+func TestF2ExcludeKeepsSiblings(t *testing.T) {
+	tmp := t.TempDir()
+	src, dst := filepath.Join(tmp, "src"), filepath.Join(tmp, "dst")
+	for _, n := range []string{"a", "b", "c", "d"} {
+		write(t, filepath.Join(src, n), n)
+	}
+	pull(t, src, dst, "--exclude=b")
+	got := ls(t, dst)
+	if !has(got, "a") || has(got, "b") || !has(got, "c") || !has(got, "d") {
+		t.Errorf("--exclude=b: got %v, want [a c d]", got)
+	}
+}
+
+// F3: an include rule that matches first keeps the entry.
+func TestF3IncludeBeforeExclude(t *testing.T) {
+	tmp := t.TempDir()
+	src, dst := filepath.Join(tmp, "src"), filepath.Join(tmp, "dst")
+	write(t, filepath.Join(src, "a"), "a")
+	write(t, filepath.Join(src, "z"), "z")
+	pull(t, src, dst, "--include=z", "--exclude=a")
+	got := ls(t, dst)
+	if !has(got, "z") || has(got, "a") {
+		t.Errorf("--include=z --exclude=a: got %v, want [z]", got)
+	}
+}
+
+// F4: a wildcard rule must produce an error, not kill the process.
+// (On the pinned tree this test crashes the whole test binary.)
+func TestF4WildcardIsAnError(t *testing.T) {
+	tmp := t.TempDir()
+	src, dst := filepath.Join(tmp, "src"), filepath.Join(tmp, "dst")
+	write(t, filepath.Join(src, "a.o"), "a")
+	srv := rsynctest.New(t, rsynctest.InteropModule(src))
+	out, err := rsynctest.CombinedOutput("gokr-rsync", "-a", "--exclude=*.o", "rsync://localhost:"+srv.Port+"/interop/", dst)
+	if err == nil {
+		t.Errorf("wildcard rule silently accepted; output: %s", out)
+	}
+}
+
+// F5: a trailing-slash rule applies to directories only; "!" is rejected.
+func TestF5DirectoryOnlyRule(t *testing.T) {
+	tmp := t.TempDir()
+	src, dst := filepath.Join(tmp, "src"), filepath.Join(tmp, "dst")
+	write(t, filepath.Join(src, "sub", "x", "f"), "dir x")
+	write(t, filepath.Join(src, "x"), "file x")
+	pull(t, src, dst, "--exclude=x/")
+	got := ls(t, dst)
+	if !has(got, "x") || has(got, "sub/x") {
+		t.Errorf("--exclude=x/: got %v, want file x kept and directory sub/x left out", got)
+	}
+	srv := rsynctest.New(t, rsynctest.InteropModule(src))
+	if out, err := rsynctest.CombinedOutput("gokr-rsync", "-a", "--filter=!", "rsync://localhost:"+srv.Port+"/interop/", filepath.Join(tmp, "dst2")); err == nil {
+		t.Errorf("clear-list rule silently accepted; output: %s", out)
+	}
+}
+
+// F13: the client-as-sender (local copy) must honour --exclude.
+func TestF13LocalCopyHonoursExclude(t *testing.T) {
+	tmp := t.TempDir()
+	src, dst := filepath.Join(tmp, "src"), filepath.Join(tmp, "dst")
+	for _, n := range []string{"a", "b", "c"} {
+		write(t, filepath.Join(src, n), n)
+	}
+	rsynctest.Run(t, "gokr-rsync", "-a", "--exclude=b", src+"/", dst)
+	got := ls(t, dst)
+	if has(got, "b") || !has(got, "a") || !has(got, "c") {
+		t.Errorf("local copy --exclude=b: got %v, want [a c]", got)
+	}
+}
